@@ -212,7 +212,12 @@ def compare(it, op, a, b):
     if isinstance(a, (int, float)) and isinstance(b, (int, float)):
         return {"<": a < b, "<=": a <= b, ">": a > b, ">=": a >= b}[op]
     if isinstance(a, SRatio) or isinstance(b, SRatio) or isinstance(a, (SFloat, float)) or isinstance(b, (SFloat, float)):
-        raise Unsupported("float comparison")
+        # opaque floats (wall-clock seconds): the outcome of the comparison is unknown -> a fresh
+        # unconstrained bool (both outcomes are explored: sound over-approximation)
+        it.ctx.fresh_n += 1
+        k = it.ctx.ghost.get("fcmp_n", 0)
+        it.ctx.ghost["fcmp_n"] = k + 1
+        return it.ctx.input_bool("float_cmp[%d]" % k)
     if a is None or b is None:
         raise PyRaise("TypeError", "ordering with None")
     raise Unsupported("ordering on %r / %r" % (a, b))
@@ -330,9 +335,7 @@ def binop(it, op, a, b):
         if op == "Add":
             sa, sb = to_float_sign(a), to_float_sign(b)
             both = b_and(sa, sb)
-            if both is True:
-                return SFloat(True)
-            raise Unsupported("float + with unknown sign")
+            return SFloat(both)   # non-negative when both are (otherwise the sign is unknown: treated as possibly negative)
         raise Unsupported("float op %s" % op)
     # ---- bytes
     ta, tb = bytes_term(it, a), bytes_term(it, b)
